@@ -56,7 +56,10 @@ pub fn c20_values() -> Vec<(&'static str, V)> {
          ("map", V::map(m))]
 }
 #[cfg(vpv_replay)]
-pub fn c20_nonfinite() -> Vec<(&'static str, V)> { vec![("NaN", V::Float(f64::NAN)), ("+inf", V::Float(f64::INFINITY)), ("-inf", V::Float(f64::NEG_INFINITY))] }
+pub fn c20_nonfinite() -> Vec<(&'static str, V)> {
+    vec![("NaN", V::Float(f64::NAN)), ("NaN with the sign bit set", V::Float(f64::from_bits(0xfff8_0000_0000_0000))), ("NaN with a payload", V::Float(f64::from_bits(0x7ff8_0000_0000_beef))),
+         ("+inf", V::Float(f64::INFINITY)), ("-inf", V::Float(f64::NEG_INFINITY))]
+}
 #[cfg(vpv_replay)]
 pub fn c20_same_event(a: &Event, b: &Event) -> bool {
     a.event_type == b.event_type && a.timestamp == b.timestamp && a.data.len() == b.data.len()
@@ -69,6 +72,9 @@ pub fn c20_events(vals: &[(&'static str, V)], stamps: &[(i64, u32)]) -> Vec<(Str
         let ts = chrono::DateTime::from_timestamp(*secs, *nanos).unwrap();
         out.push((format!("type={:?} t=({}s,{}ns) no fields", ty, secs, nanos), Event::new(ty).with_timestamp(ts)));
         for (n1, v1) in vals {
+            // payload fields whose NAMES collide with the serialised form's own keys
+            out.push((format!("type={:?} t=({}s,{}ns) fields timestamp_ms={} event_type={} fields={}", ty, secs, nanos, n1, n1, n1),
+                      Event::new(ty).with_timestamp(ts).with_field("timestamp_ms", v1.clone()).with_field("event_type", v1.clone()).with_field("fields", v1.clone())));
             out.push((format!("type={:?} t=({}s,{}ns) field a={}", ty, secs, nanos, n1), Event::new(ty).with_timestamp(ts).with_field("a", v1.clone())));
             for (n2, v2) in vals { out.push((format!("type={:?} t=({}s,{}ns) fields a={} b\u{e9}={}", ty, secs, nanos, n1, n2), Event::new(ty).with_timestamp(ts).with_field("a", v1.clone()).with_field("b\u{e9}", v2.clone()))); }
         }
